@@ -3,7 +3,7 @@
     asset-year's results, opening balances chained to the most recent earlier year sheet.
 
     Statements only; proofs are in Proofs/Jp*.v.  The theorems speak about the report the model
-    (Model/JpReport.v) produces with the two structural facts of the source as the translator reads
+    (Model/JpReport.v; the Legend sheet: Model/JpLegend.v) produces with the two structural facts of the source as the translator reads
     them from the working tree: [gen_jp_years_sorted] (the per-asset loop handles the years in ascending
     order) and [gen_jp_prev_existing_year] (the opening balance names the sheet of the year handled
     just before).  On a tree without the repair of finding F5 both are [false], Proofs/JpProofs.v
@@ -15,8 +15,8 @@
     first transaction row, [em_row_index e] = 21 + number of rows of that sheet. *)
 From Coq Require Import List ZArith Bool Lia Permutation Sorted.
 From RP2V Require Import Base.Prelude Base.Time Base.Dec Base.Sorting Base.Assoc Model.Types Model.Generated Model.Txn
-  Model.Pipeline Model.Computed Model.Grid Model.ReportInput Model.JpReport
-  Proofs.JpOps Proofs.JpSheet Proofs.JpYears Proofs.JpSummary Proofs.JpNames Proofs.JpProofs Proofs.JpRefuted.
+  Model.Pipeline Model.Computed Model.Grid Model.ReportInput Model.TaxReport Model.JpReport Model.JpLegend
+  Proofs.JpOps Proofs.JpSheet Proofs.JpYears Proofs.JpSummary Proofs.JpNames Proofs.JpProofs Proofs.JpRefuted Proofs.JpLegend.
 Import ListNotations.
 Open Scope Z_scope.
 
@@ -223,6 +223,59 @@ Example C20_example_gap : exists r,
   cell r (nm 2021) 30 4 = sheet_ref (nm 2019) 73 31 /\ cell r (nm 2019) 30 8 = closing_formula 31.
 Proof. rewrite code_years_sorted, code_prev_existing, code_intra_yen_guard. exists (report_of_input true true true gap_input). exact repaired_gap. Qed.
 
+(** ---- the Legend sheet (Model/JpLegend.v, Proofs/JpLegend.v).  The JP generator gets its output file from the same
+    [_initialize_output_file] as the other generators: the whole file is [jp_report_full] = the Legend sheet, then the sheets of
+    [jp_report] above (all theorems of this file about the report apply to the tail) *)
+Theorem C20_file_is_legend_then_report : forall lang yg ys pe i out,
+  jp_report_full lang yg ys pe i = Ok out <->
+  exists lg r, jp_legend lang i = Ok lg /\ jp_report lang yg ys pe i = Ok r /\ out = lg :: r.
+Proof. exact jp_report_full_iff. Qed.
+
+(** the file is produced under the hypotheses of C20_report_produced (the legend never fails: every shipped template has the
+    "Accounting Method" row, and a one-entry schedule is printed by value -- repair of finding F10, read from the source) *)
+Theorem C20_file_produced : forall lang i l,
+  computed_all i (rp_assets i) = Ok l -> (rp_from i = MIN_DAY \/ rp_to i = MAX_DAY) ->
+  exists lg r, jp_report_full lang gen_jp_intra_yen_guard_on_crypto gen_jp_years_sorted gen_jp_prev_existing_year i = Ok (lg :: r) /\
+    jp_legend lang i = Ok lg /\
+    jp_report lang gen_jp_intra_yen_guard_on_crypto gen_jp_years_sorted gen_jp_prev_existing_year i = Ok r.
+Proof. exact jp_report_full_total. Qed.
+
+(** the Legend states the method and the filters actually used: it carries the translated name "Legend", has the size of the
+    template's legend sheet, holds the template's cells (labels) followed by three writes; the cell next to "Accounting Method"
+    finally holds the method string of the schedule, the two cells below the from / to date actually passed or "non-specified"
+    (last write wins: in the shipped JP templates these three cells hold placeholder texts that are overwritten); cell (r, 0) is a
+    template label; no write lies outside the sheet (finite fact per generation language over the regenerated template geometry) *)
+Theorem C20_legend_states_method_and_filters : forall lang i s, jp_legend lang i = Ok s ->
+  exists r m, gen_jp_legend_method_row lang = Some r /\ legend_method true (rp_sched i) = Ok m /\
+    sw_name s = gen_jp_legend_name lang /\ sw_rows s = gen_jp_legend_rows lang /\ sw_cols s = gen_jp_legend_cols lang /\
+    sw_writes s = jp_legend_labels lang ++ [cw r 1 (PStr m); cw (r + 1) 1 (day_cell MIN_DAY (rp_from i)); cw (r + 2) 1 (day_cell MAX_DAY (rp_to i))] /\
+    sheet_ok s = true /\
+    cell_at (sw_writes s) r 1 = PStr m /\
+    cell_at (sw_writes s) (r + 1) 1 = (if rp_from i =? MIN_DAY then PStr s_nonspec else PDay (rp_from i)) /\
+    cell_at (sw_writes s) (r + 2) 1 = (if rp_to i =? MAX_DAY then PStr s_nonspec else PDay (rp_to i)) /\
+    cell_at (sw_writes s) r 0 = PLabel.
+Proof. exact jp_legend_facts. Qed.
+(** the method string: the single method whatever year it is registered under, otherwise "y:M" / "y0->y:M" per entry *)
+Theorem C20_legend_method_string : forall sched, exists m, legend_method true sched = Ok m /\
+  (forall y me, sched = [(y, me)] -> m = meth_upper me) /\
+  ((length sched <> 1)%nat -> m = join_comma (sched_parts 1970 sched)).
+Proof. exact jp_legend_method_by_value. Qed.
+Theorem C20_legend_template_fits : forall lang, jp_legend_fits lang = true.
+Proof. exact jp_legend_fits_all. Qed.
+(** with C20_sheets_within_capacity: no write of the file lies outside its sheet *)
+Theorem C20_file_within_capacity : forall lang yg ys pe i out, jp_report_full lang yg ys pe i = Ok out ->
+  forall s, In s out -> sheet_ok s = true.
+Proof. exact jp_report_full_sheets_ok. Qed.
+(** non-vacuity: the gap-year input (BTC bought 2019 and 2021) with the schedule [2019: HIFO] and the from-date 2019-01-01 (day
+    17897): the first sheet is the Legend, it says HIFO / 2019-01-01 / non-specified; four more sheets follow *)
+Theorem C20_legend_nonvacuous : exists lg r,
+  jp_report_full 0 gen_jp_intra_yen_guard_on_crypto gen_jp_years_sorted gen_jp_prev_existing_year ex_legend_input = Ok (lg :: r) /\
+  sw_name lg = gen_jp_legend_name 0 /\ (length r = 4)%nat /\ sheet_ok lg = true /\
+  exists row, gen_jp_legend_method_row 0 = Some row /\
+    cell_at (sw_writes lg) row 1 = PStr (meth_upper Hifo) /\ cell_at (sw_writes lg) (row + 1) 1 = PDay 17897 /\
+    cell_at (sw_writes lg) (row + 2) 1 = PStr s_nonspec /\ cell_at (sw_writes lg) row 0 = PLabel.
+Proof. exact jp_legend_example. Qed.
+
 Print Assumptions C20_report_shape.
 Print Assumptions C20_report_produced.
 Print Assumptions C20_one_sheet_per_asset_year.
@@ -240,3 +293,10 @@ Print Assumptions C20_layout_fits_template.
 Print Assumptions C20_refuted_unordered.
 Print Assumptions C20_refuted_gap.
 Print Assumptions C20_refuted_dust_fee_crash.
+Print Assumptions C20_file_is_legend_then_report.
+Print Assumptions C20_file_produced.
+Print Assumptions C20_legend_states_method_and_filters.
+Print Assumptions C20_legend_method_string.
+Print Assumptions C20_legend_template_fits.
+Print Assumptions C20_file_within_capacity.
+Print Assumptions C20_legend_nonvacuous.
